@@ -103,6 +103,9 @@ def alphabet(world):
                 b = STATED[t.name] / 11
                 out.append(Op(f"repay[{t.name},part]", lambda c, t=t, b=b: do("repay", t, b, lambda: m.repay(t, b), "cash"), False, "repay"))
                 out.append(Op(f"repay[{t.name},None]", lambda c, t=t: do("repay", t, None, lambda: m.repay(t), "cash"), True, "repay"))
+                # a cash repayment that also names a collateral token (ignored in cash mode, as documented): still paid from the wallet
+                out.append(Op(f"repay[{t.name},part,cash+token-named]",
+                              lambda c, t=t, b=b: do("repay", t, b, lambda: m.repay(t, b, False, aave.WETH), "cash"), True, "repay"))
                 out.append(Op(f"repay[{t.name},part,self]", lambda c, t=t, b=b: do("repay", t, b, lambda: m.repay(t, b, True), t.name), True, "repay"))
                 if aave.DAI in m._supplies and t != aave.DAI:
                     out.append(Op(f"repay[{t.name},None,DAI]", lambda c, t=t: do("repay", t, None, lambda: m.repay(t, None, True, aave.DAI), "DAI"), True, "repay"))
